@@ -137,7 +137,8 @@ theorem anonymous_accepted (guid : Bytes) (w : RealWorld) (reads : List Bytes) (
     decide
   have hconv : convOk real (Server.init guid w) [lit "AUTH ANONYMOUS", lit "BEGIN"] :=
     ⟨a1, a3, by decide, a4, a5, by decide⟩
-  have := conv_accepted real guid w _ _ hsp hconv reads hall hflat
+  have := conv_accepted real guid w (encodeLines [lit "AUTH ANONYMOUS", lit "BEGIN"]) [lit "AUTH ANONYMOUS", lit "BEGIN"] hsp hconv reads hall hflat
+  simp only [convFinal] at this
   refine ⟨this.1, this.2.1, ?_⟩
   rw [this.2.2]
   exact a6
@@ -156,7 +157,8 @@ theorem external_accepted (guid : Bytes) (w : RealWorld) (uid : Nat) (e : PwEnt)
       ([lit "AUTH EXTERNAL", lit "DATA", lit "BEGIN"], []) := by decide
   have hconv : convOk real (Server.init guid w) [lit "AUTH EXTERNAL", lit "DATA", lit "BEGIN"] :=
     ⟨a1, a3, by decide, a2, a4, by decide, a5, a6, by decide⟩
-  have := conv_accepted real guid w _ _ hsp hconv reads hall hflat
+  have := conv_accepted real guid w (encodeLines [lit "AUTH EXTERNAL", lit "DATA", lit "BEGIN"]) [lit "AUTH EXTERNAL", lit "DATA", lit "BEGIN"] hsp hconv reads hall hflat
+  simp only [convFinal] at this
   refine ⟨this.1, this.2.1, ?_⟩
   rw [this.2.2]
   exact a7
@@ -215,7 +217,9 @@ theorem cookie_accepted (guid : Bytes) (w : RealWorld) (user cc : Bytes) (e : Pw
   have hconv : convOk real (Server.init guid w)
       [cookieAuthLine user, cookieDataLine w.cfg.sha1 c1.challenge cc c1.cookie, lit "BEGIN"] :=
     ⟨a1, a2, hl1, a5, a7, hl2, a8, a9, by decide⟩
-  have := conv_accepted real guid w _ _ hsp hconv reads hall hflat
+  have := conv_accepted real guid w (encodeLines [cookieAuthLine user, cookieDataLine w.cfg.sha1 c1.challenge cc c1.cookie, lit "BEGIN"])
+    [cookieAuthLine user, cookieDataLine w.cfg.sha1 c1.challenge cc c1.cookie, lit "BEGIN"] hsp hconv reads hall hflat
+  simp only [convFinal] at this
   refine ⟨this.1, this.2.1, ?_⟩
   rw [this.2.2]
   exact a10
